@@ -19,8 +19,9 @@ Inductive ekind := KState | KEvent | KAction | KGuard | KStruct | KProto | KMsg.
 
 Inductive item16 :=
 | Text (l : string)                       (* a line outside blocks: literal text (without its newline) *)
-| Block (k : ekind) (body : list uline)
-| SigBlock (body : list uline).
+| Raw (s : string)                        (* a line outside blocks exactly as it stands (the last line of a file may lack the newline) *)
+| Block (k : ekind) (ib ie : string) (body : list uline)     (* ib / ie : what precedes the begin / end tag on its line (indentation) *)
+| SigBlock (ib ie : string) (body : list uline).
 
 Definition template16 := list item16.
 
@@ -35,8 +36,9 @@ Definition end_line (w : string) : string := ("<<<" ++ w ++ "_END>>>" ++ nl_str)
 Definition render_item16 (it : item16) : list string :=
   match it with
   | Text l => [(l ++ nl_str)%string]
-  | Block k body => begin_line (block_word k) :: map render_line body ++ [end_line (block_word k)]
-  | SigBlock body => begin_line "PER_ACTION_SIGNATURE" :: map render_line body ++ [end_line "PER_ACTION_SIGNATURE"]
+  | Raw s => [s]
+  | Block k ib ie body => (ib ++ begin_line (block_word k))%string :: map render_line body ++ [(ie ++ end_line (block_word k))%string]
+  | SigBlock ib ie body => (ib ++ begin_line "PER_ACTION_SIGNATURE")%string :: map render_line body ++ [(ie ++ end_line "PER_ACTION_SIGNATURE")%string]
   end.
 Definition render16 (t : template16) : list string := flat_map render_item16 t.
 
@@ -104,8 +106,9 @@ Definition table_of_kind (k : ekind) : string -> nat -> list (string * string) :
 Definition ref_item16 (e : elements) (it : item16) : list string :=
   match it with
   | Text l => [(l ++ nl_str)%string]
-  | Block k body => ref_block (table_of_kind k) (items_of e k) body
-  | SigBlock body => ref_block sig_table (el_sigs e) body
+  | Raw s => [s]
+  | Block k _ _ body => ref_block (table_of_kind k) (items_of e k) body
+  | SigBlock _ _ body => ref_block sig_table (el_sigs e) body
   end.
 
 (* the generated file: TAB normalised to four spaces *)
